@@ -23,6 +23,8 @@ CORE_MODELS = [
     T(4, [2, 1, 7, 0], [7, 1, 2], P=0, K=3, H=5),        # more LPs than threads
     T(2, [7, 7], [5, 7, 2], P=5, K=9, H=5),              # fan-out 2 + ties
     T(2, [9, 9], [9, 2, 9], P=5, K=12, H=5),             # ties between 40-byte payloads differing beyond byte 32
+    T(2, [10, 1], [1, 2, 10], P=0, K=6, H=4, C=1),       # zero-delay relay of an unchanged event: content-equal events pending at once
+    T(3, [10, 10, 10], [0, 0, 10], P=0, K=5, H=3, C=2),
 ]
 
 
